@@ -58,7 +58,8 @@ def make_scheduler(name, mode, seed, cs_kind="mixed", max_t=27, extra=None):
     extra = dict(extra or {})
     cs = config_space(cs_kind, max_t)
     if name in ("fifo-bayesopt", "hb-bayesopt", "hb-hypertune"):
-        so = {"debug_log": False, "num_init_random": extra.get("num_init_random", 3), "opt_maxiter": 5, "opt_nstarts": 1}
+        so = {"debug_log": False, "num_init_random": extra.get("num_init_random", 3), "opt_maxiter": 5,
+              "opt_nstarts": extra.get("opt_nstarts", 1)}
         if name == "fifo-bayesopt":
             from syne_tune.optimizer.schedulers.fifo import FIFOScheduler
             return FIFOScheduler(cs, searcher="bayesopt", metric=METRIC, mode=mode, random_seed=seed, search_options=so)
